@@ -22,6 +22,11 @@ from autofit.interpolator.spline import SplineInterpolator
 INTERNAL = ("id", "_is_frozen", "_frozen_cache", "_label")
 
 
+class Holder:
+    """a class held as an attribute (like Model.cls): it has a float class attribute, which is not a parameter"""
+    weight = 1.5
+
+
 class Obj:
     """A plain component class: attributes live in __dict__ in insertion order."""
 
@@ -48,6 +53,8 @@ def build(t):
     if "i" in t:
         return int(t["i"])
     if "x" in t:
+        if t["x"] == 9:
+            return Holder
         return None if t["x"] == 0 else "s%d" % t["x"]
     if "l" in t:
         return [build(c) for c in t["l"]]
@@ -106,6 +113,8 @@ def apply_alias(obj, alias):
 
 def abstract(o, odd=None, where=()):
     """Python object -> abstract tree.  `odd` collects leaves whose Python type is not exactly float/int."""
+    if o is Holder:
+        return {"x": 9}
     if isinstance(o, bool) or o is None or isinstance(o, str):
         if o is None:
             return {"x": 0}
@@ -137,7 +146,9 @@ def abstract(o, odd=None, where=()):
 
 
 def mutable_ids(o, acc):
-    """ids of every mutable container reachable from o."""
+    """ids of every mutable container reachable from o (classes are shared by design, not containers)."""
+    if isinstance(o, type):
+        return acc
     if isinstance(o, (list, tuple)):
         if isinstance(o, list):
             acc.add(id(o))
@@ -163,6 +174,8 @@ def snapshot(objs):
         out.append((json.dumps(abstract(o, odd), sort_keys=True), json.dumps(odd, sort_keys=True),
                     tuple(sorted(mutable_ids(o, set()))),
                     tuple((k, id(v)) for k, v in o.__dict__.items() if k != "_frozen_cache") if hasattr(o, "__dict__") else ()))
+    # the class held as an attribute is shared by every instance: it must not change either
+    out.append(("Holder", repr(Holder.weight), (), tuple(sorted(k for k in vars(Holder) if not k.startswith("__")))))
     return out
 
 
